@@ -6,6 +6,12 @@ Anything else raises Unsupported (an analysis error for the caller)."""
 import ast
 from sa.util import AnalysisError
 class Unsupported(AnalysisError): pass
+def _args(args, env):
+    out_ = []
+    for a in args:
+        if isinstance(a, ast.Starred): out_.extend(list(evaluate(a.value, env)))
+        else: out_.append(evaluate(a, env))
+    return out_
 def evaluate(e, env):
     if isinstance(e, ast.Constant): return e.value
     if isinstance(e, ast.Attribute):
@@ -19,6 +25,8 @@ def evaluate(e, env):
             env2 = dict(env); env2["__depth__"] = env.get("__depth__", 0) + 1; env2[h_.args.args[0].arg] = base       # a property of the sample's class: its getter is interpreted
             for k_ in [k_ for k_ in env2 if isinstance(k_, str) and k_.startswith(h_.args.args[0].arg + ".")]: del env2[k_]
             return run_block(h_.body, env2)
+        if isinstance(base, dict) and base.get(".__complete__") and e.attr.startswith("_") and not e.attr.startswith("__") and e.attr not in (env.get("__functions__") or {}):
+            raise Raised("AttributeError")           # the sample was built by interpreting its constructor: a private field the constructor does not set does not exist
         if isinstance(base, Trusted):
             if e.attr not in base.names: raise Unsupported("%s.%s is outside the trusted part of the standard library" % (getattr(base.obj, "__name__", "?"), e.attr))
             v_ = getattr(base.obj, e.attr)
@@ -124,25 +132,36 @@ def evaluate(e, env):
     if isinstance(e, ast.Call):
         if isinstance(e.func, ast.Attribute) and e.func.attr in ("replace", "strip", "lstrip", "rstrip", "removeprefix", "removesuffix", "startswith", "endswith", "lower", "upper", "casefold", "join", "split", "rsplit", "partition", "rpartition", "format"):
             recv = evaluate(e.func.value, env)
-            if isinstance(recv, str): return getattr(recv, e.func.attr)(*[evaluate(a, env) for a in e.args])      # Python's own str semantics (trusted base)
+            if isinstance(recv, str): return getattr(recv, e.func.attr)(*_args(e.args, env))      # Python's own str semantics (trusted base)
         if isinstance(e.func, ast.Attribute) and e.func.attr in _PATTERN_METHODS + _MATCH_METHODS:
             try: recv_ = evaluate(e.func.value, env)
             except Unsupported: recv_ = None
             if (isinstance(recv_, _re.Pattern) and e.func.attr in _PATTERN_METHODS) or (isinstance(recv_, _re.Match) and e.func.attr in _MATCH_METHODS):
-                r_ = _trusted_call(getattr(recv_, e.func.attr), [evaluate(a, env) for a in e.args], {k.arg: evaluate(k.value, env) for k in e.keywords if k.arg})
+                r_ = _trusted_call(getattr(recv_, e.func.attr), _args(e.args, env), {k.arg: evaluate(k.value, env) for k in e.keywords if k.arg})
                 return list(r_) if e.func.attr == "finditer" else r_
-        if isinstance(e.func, ast.Name) and e.func.id in ("len", "str", "bool", "list", "tuple", "sorted", "set", "dict", "id", "type", "any", "all", "sum", "min", "max") and not e.keywords: return {"any": any, "all": all, "sum": sum, "min": min, "max": max, "len": len, "str": str, "bool": bool, "list": list, "tuple": tuple, "sorted": sorted, "set": set, "dict": dict, "id": id, "type": lambda o: o.cls if isinstance(o, InstObj) else (o.get(".__class__") if isinstance(o, dict) and ".__class__" in o else type(o))}[e.func.id](*[evaluate(a, env) for a in e.args])
-        if isinstance(e.func, ast.Attribute) and e.func.attr in ("items", "keys", "values", "get", "pop", "clear", "setdefault") and not e.keywords:
+        if isinstance(e.func, ast.Name) and e.func.id in ("len", "str", "bool", "list", "tuple", "sorted", "set", "dict", "id", "type", "any", "all", "sum", "min", "max") and not e.keywords: return {"any": any, "all": all, "sum": sum, "min": min, "max": max, "len": len, "str": str, "bool": bool, "list": list, "tuple": tuple, "sorted": sorted, "set": set, "dict": dict, "id": id, "type": lambda o: o.cls if isinstance(o, InstObj) else (o.get(".__class__") if isinstance(o, dict) and ".__class__" in o else type(o))}[e.func.id](*_args(e.args, env))
+        if isinstance(e.func, ast.Name) and e.func.id == "callable" and len(e.args) == 1 and "callable" not in env:
+            v_ = evaluate(e.args[0], env); return isinstance(v_, (PyFn, Closure, DefClosure, ClassObj, Callee)) or (isinstance(v_, dict) and v_.get(".kind") == "callable")
+        if isinstance(e.func, ast.Name) and e.func.id in ("int", "float") and e.func.id not in env and len(e.args) == 1 and not e.keywords:
+            return _trusted_call({"int": int, "float": float}[e.func.id], [evaluate(e.args[0], env)], {})
+        if isinstance(e.func, ast.Attribute) and e.func.attr in ("items", "keys", "values", "get", "pop", "clear", "setdefault", "update", "copy") and not e.keywords:
             recv = evaluate(e.func.value, env)
             if isinstance(recv, dict) and not any(isinstance(k_, str) and k_.startswith(".") for k_ in recv):
-                try: r_ = getattr(recv, e.func.attr)(*[evaluate(a, env) for a in e.args])
+                try: r_ = getattr(recv, e.func.attr)(*_args(e.args, env))
                 except KeyError: raise Raised("KeyError")
                 return list(r_) if e.func.attr in ("items", "keys", "values") else r_
-        if isinstance(e.func, ast.Attribute) and e.func.attr in ("append", "extend", "remove", "insert", "clear") and not e.keywords:
+        if isinstance(e.func, ast.Attribute) and e.func.attr in ("append", "extend", "remove", "insert", "clear", "pop", "index", "count", "sort", "reverse", "copy") and not e.keywords:
             recv = evaluate(e.func.value, env)
             if isinstance(recv, list):
-                try: return getattr(recv, e.func.attr)(*[evaluate(a, env) for a in e.args])
+                try: return getattr(recv, e.func.attr)(*_args(e.args, env))
                 except ValueError: raise Raised("ValueError")
+                except IndexError: raise Raised("IndexError")
+        if isinstance(e.func, ast.Attribute) and e.func.attr in ("add", "discard", "remove", "update", "union", "issubset", "copy") and not e.keywords:
+            recv = evaluate(e.func.value, env)
+            if isinstance(recv, set):
+                try: return getattr(recv, e.func.attr)(*_args(e.args, env))
+                except KeyError: raise Raised("KeyError")
+                except TypeError: raise Raised("TypeError")
         if isinstance(e.func, ast.Name) and e.func.id in ("setattr", "delattr", "hasattr", "getattr") and e.args and isinstance(evaluate(e.args[0], env), (ClassObj, InstObj)):
             c_ = evaluate(e.args[0], env); n_ = evaluate(e.args[1], env)
             if e.func.id == "setattr": c_.own[n_] = evaluate(e.args[2], env); return None
@@ -177,11 +196,11 @@ def evaluate(e, env):
             if len(e.args) == 2: return evaluate(e.args[1], env)
             raise Raised("StopIteration")
         if isinstance(e.func, ast.Name) and e.func.id in ("enumerate", "zip", "reversed") and e.func.id not in env and not e.keywords:
-            a_ = [evaluate(a, env) for a in e.args]
+            a_ = _args(e.args, env)
             if e.func.id == "enumerate": return [(i_, x_) for i_, x_ in enumerate(list(a_[0]), *(a_[1:2]))]
             if e.func.id == "zip": return [tuple(x_) for x_ in zip(*[list(v_) for v_ in a_])]
             return list(reversed(list(a_[0])))
-        if isinstance(e.func, ast.Name) and e.func.id == "range" and 1 <= len(e.args) <= 3 and not e.keywords: return list(range(*[evaluate(a, env) for a in e.args]))
+        if isinstance(e.func, ast.Name) and e.func.id == "range" and 1 <= len(e.args) <= 3 and not e.keywords: return list(range(*_args(e.args, env)))
         if isinstance(e.func, ast.Name) and e.func.id == "isinstance" and len(e.args) == 2:
             T = {"str": str, "bool": bool, "int": int, "float": float, "list": list, "tuple": tuple, "dict": dict, "set": set}
             sample_classes = env.get("__classes__") or {}
@@ -238,7 +257,7 @@ def evaluate(e, env):
         # a call of a sample callable supplied by the analysis (tagged stand-in for a provider / processor object)
         try: fv = evaluate(e.func, env)
         except Unsupported: fv = None
-        if isinstance(fv, Callee) and not e.keywords: return fv(*[evaluate(a, env) for a in e.args])
+        if isinstance(fv, Callee) and not e.keywords: return fv(*_args(e.args, env))
         if isinstance(fv, PyFn):
             kw_ = {}
             for k in e.keywords:
@@ -249,8 +268,8 @@ def evaluate(e, env):
                 if isinstance(a, ast.Starred): args_.extend(list(evaluate(a.value, env)))
                 else: args_.append(evaluate(a, env))
             return fv.fn(*args_, **kw_)
-        if isinstance(fv, Closure) and not e.keywords: return fv(*[evaluate(a, env) for a in e.args])
-        if isinstance(fv, DefClosure): return fv(*[evaluate(a, env) for a in e.args], **{k.arg: evaluate(k.value, env) for k in e.keywords if k.arg})
+        if isinstance(fv, Closure) and not e.keywords: return fv(*_args(e.args, env))
+        if isinstance(fv, DefClosure): return fv(*_args(e.args, env), **{k.arg: evaluate(k.value, env) for k in e.keywords if k.arg})
     raise Unsupported("expression outside the supported subset : " + ast.unparse(e)[:80])
 import re as _re, codecs as _codecs, unicodedata as _ud
 class Trusted:
@@ -397,6 +416,9 @@ def run_block(stmts, env, max_steps=2000):
             if isinstance(s, ast.AugAssign) and isinstance(s.op, (ast.Add, ast.Sub)) and isinstance(s.target, (ast.Attribute, ast.Subscript)):
                 cur_ = evaluate(s.target, env); d_ = evaluate(s.value, env)
                 assign(s.target, cur_ + d_ if isinstance(s.op, ast.Add) else cur_ - d_); continue
+            if isinstance(s, ast.AugAssign) and isinstance(s.op, (ast.BitOr, ast.BitAnd)) and isinstance(s.target, (ast.Name, ast.Attribute, ast.Subscript)):
+                cur_ = evaluate(s.target, env); d_ = evaluate(s.value, env)
+                assign(s.target, (cur_ | d_) if isinstance(s.op, ast.BitOr) else (cur_ & d_)); continue
             if isinstance(s, ast.AugAssign) and isinstance(s.op, (ast.Add, ast.Sub)) and isinstance(s.target, ast.Name):
                 env[s.target.id] = evaluate(s.target, env) + evaluate(s.value, env) if isinstance(s.op, ast.Add) else evaluate(s.target, env) - evaluate(s.value, env); continue
             if isinstance(s, ast.While):
